@@ -29,7 +29,7 @@ COMPONENTS = {
     "stub": ["numpy.random.* (tape)", "random_choice in calling.mcmc (tape)"],
 }
 ASSUMPTIONS = [
-    "numba compiles gibbs_options / mh_options / compound_step faithfully (observed interpreted)",
+    "numba compiles gibbs_options / mh_options / compound_step faithfully (observed interpreted); narrowed in both tiers by the compiled call-sampler probe (trace likelihoods recomputed, cache on/off trajectories) and in the thorough tier by the compiled kernel comparison",
     "reference posterior written from the documentation in sim/refmodel.py",
     "kernel runs use strictly positive frequencies; zero-frequency and masked alleles enter through the cli flavour, where the application removes them before sampling",
     "cli flavour: the k-th numerical-core call inside one call_sample_genotypes invocation belongs to the k-th sample of the record",
@@ -69,19 +69,56 @@ def shrink_candidates(cfg, violation):
     return wl_call.shrink_candidates(cfg, violation)
 
 
-def post_batch(tier, base_seed, results):
-    """Thorough tier: gibbs_options / mh_options are recomputed COMPILED (JIT on, separate process) on states the
-    interpreted runs visited and must agree with the interpreted vectors to 1e-9 (narrows the trusted base
-    'numba compiles these functions faithfully')."""
-    if tier != "thorough":
-        return {"evidence": {"compiled_kernel_comparison": "thorough tier only"}}
+def run_compiled_probe(args, timeout=3600):
+    """Runs sim/probe_compiled.py with the JIT on in a separate process; returns its JSON document and the command."""
     import json
     import os
     import subprocess
     import sys
-    import tempfile
     from . import cachedir
     from .core import VERIF_DIR, HarnessError
+    env = dict(os.environ, NUMBA_DISABLE_JIT="0", NUMBA_CACHE_DIR=cachedir.numba_cache_dir())
+    cmd = [sys.executable, "-W", "ignore", os.path.join(VERIF_DIR, "sim", "probe_compiled.py")] + [str(a) for a in args]
+    p = subprocess.run(cmd, capture_output=True, text=True, env=env, timeout=timeout)
+    if p.returncode != 0:
+        raise HarnessError("compiled probe %s failed: %s" % (args[0], p.stderr[-1500:]))
+    return json.loads(p.stdout.strip().splitlines()[-1]), " ".join(cmd)
+
+
+def callcache_probe(tier, base_seed):
+    """Both tiers: the COMPILED call sampler as the programs run it (per-chain likelihood cache on).  Typed containers and
+    explicit dtypes only exist compiled (numba.typed.Dict degrades to a plain dict when the JIT is off), so this is the
+    part of 'the sampler uses exactly the likelihood' that the interpreted runs cannot see."""
+    n = 60 if tier == "quick" else 600
+    doc, cmd = run_compiled_probe(["callcache", base_seed % (2 ** 31), n])
+    ev = {"cases": doc["cases"], "trace_likelihoods_recomputed": doc["steps_compared"], "cache_on_off_trajectories_compared": doc["trajectory_compared"],
+          "max_abs_log_likelihood": doc["max_abs_llk"], "mismatches": len(doc["mismatches"])}
+    vs = []
+    kinds = sorted(set(m["kind"] for m in doc["mismatches"]))
+    for k in kinds:
+        ms = [m for m in doc["mismatches"] if m["kind"] == k]
+        vs.append({"class": "compiled_" + k, "message": "compiled call sampler (cache on): %s in %d of %d cases, e.g. %r" % (k.replace("_", " "), len(ms), doc["cases"], ms[0]),
+                   "detail": ms[:10], "rerun": cmd})
+    return ev, vs
+
+
+def post_batch(tier, base_seed, results, with_callcache=True):
+    """Both tiers: compiled call sampler with its cache on (callcache_probe).
+    Thorough tier: gibbs_options / mh_options are recomputed COMPILED (JIT on, separate process) on states the
+    interpreted runs visited and must agree with the interpreted vectors to 1e-9 (narrows the trusted base
+    'numba compiles these functions faithfully')."""
+    out = {"evidence": {}, "violations": []}
+    if with_callcache:
+        ev, vs = callcache_probe(tier, base_seed)
+        out["evidence"]["compiled_call_sampler_cache_probe"] = ev
+        out["violations"] += vs
+    if tier != "thorough":
+        out["evidence"]["compiled_kernel_comparison"] = "thorough tier only"
+        return out
+    import json
+    import os
+    import tempfile
+    from .core import HarnessError
     recs = [e for r in results for e in (r.get("extra") or [])]
     if not recs:
         raise HarnessError("no kernel records were collected")
@@ -89,15 +126,10 @@ def post_batch(tier, base_seed, results):
     try:
         with os.fdopen(fd, "w") as f:
             json.dump({"records": recs}, f)
-        env = dict(os.environ, NUMBA_DISABLE_JIT="0", NUMBA_CACHE_DIR=cachedir.numba_cache_dir())
-        p = subprocess.run([sys.executable, "-W", "ignore", os.path.join(VERIF_DIR, "sim", "probe_compiled.py"), "kernels", path],
-                           capture_output=True, text=True, env=env, timeout=3600)
-        if p.returncode != 0:
-            raise HarnessError("compiled kernel probe failed: %s" % p.stderr[-1500:])
-        doc = json.loads(p.stdout.strip().splitlines()[-1])
+        doc, _ = run_compiled_probe(["kernels", path])
     finally:
         os.unlink(path)
-    out = {"evidence": {"compiled_kernel_comparison": {"records": len(recs), "compared": doc["compared"], "mismatches": len(doc["mismatches"])}}, "violations": []}
+    out["evidence"]["compiled_kernel_comparison"] = {"records": len(recs), "compared": doc["compared"], "mismatches": len(doc["mismatches"])}
     if doc["mismatches"]:
         out["violations"].append({"class": "compiled_kernel_differs", "message": "compiled gibbs_options / mh_options disagree with the interpreted vectors: %r" % doc["mismatches"][:2],
                                   "detail": doc["mismatches"][:10]})
